@@ -593,7 +593,7 @@ func RegisterAll() {
 	for k, v := range map[string]Op{
 		"flat": OpFlat,
 		"edit": OpEdit, "editvalid": OpEditValid, "find": OpFind, "findx": OpFindX, "p_find_full": PFindFull, "valid": OpValid, "guidstr": OpGuidStr, "guidparse": OpGuidParse,
-		"p_c02": PC02, "p_c03": PC03, "p_c02_align": PC02Align, "p_c02_shrink": PC02Shrink, "p_c03_big": PC03Big, "p_c03_ro": PC03RO, "p_guid": PGuid,
+		"p_c02": PC02, "p_c03": PC03, "p_c02_align": PC02Align, "p_c02_shrink": PC02Shrink, "p_c02_exact": PC02Exact, "p_c03_big": PC03Big, "p_c03_ro": PC03RO, "p_guid": PGuid,
 	} {
 		Register(k, v)
 	}
